@@ -11,7 +11,7 @@ class C14(Prop):
     extra_modules = ['Cbor.Lemmas.Sequence']
     theorems = ['Props.C14.C14_sequence', 'Props.C14.C14_sequence_fuel', 'Props.C14.C14_sequence_encoded', 'Props.C14.C14_suffix', 'Props.C14.C14_two', 'Lemmas.Local.run_suffix', 'Lemmas.Refine.load_eq']
     trusted_base = BASE_TRUST + MODEL_TRUST
-    rule = ('pairs (x, y): x an enumerated well-formed item in an exactly-sized block, y in {empty, every single byte (sampled), other items, garbage, several hundred bytes of further items / of break bytes}; text strings with invalid UTF-8 content followed by every single byte; '
+    rule = ('pairs (x, y): x an enumerated well-formed item in an exactly-sized block, y in {empty, every single byte (sampled), other items, garbage, several hundred bytes of further items / of break bytes}; text strings with invalid UTF-8 content followed by every single byte; a dictionary of 29 meaningful continuations (byte-order marks, self-described-CBOR tag, reserved heads, breaks, truncated heads, huge lengths) after every short item; '
             'and concatenations of up to 6 items split by repeated decoding; sequences of 6000 items (all kinds; containers and tags only) decoded in one process; non-trivial = y non-empty; distinct by (x, y, outcome)')
 
     def pairs(self, tier, rng):
@@ -29,6 +29,14 @@ class C14(Prop):
         tail = b''.join(w for w in wf[:400] if len(w) <= 12)[:600]
         for x in wf[:: (2 if tier == 'thorough' else 5)]:
             if len(x) <= 300: out.append((x, tail)); out.append((x, b'\xff' * 300))
+        # a dictionary of continuations that mean something to SOME decoder or text routine (byte-order marks, the self-described-CBOR tag, replacement
+        # character, reserved heads, breaks, NULs, a huge declared length) after every short item (up to 12 bytes) and after one item in four beyond
+        DICT = [b'\xef\xbb\xbf', b'\xef\xbb\xbfabc', b'\xfe\xff', b'\xff\xfe', b'\xff\xff', b'\xd9\xd9\xf7', b'\xef\xbf\xbd', b'\x1c', b'\x1f\x00', b'\x00\x00\x00\x00',
+                b'\x5b' + b'\xff' * 8, b'\x7b' + b'\xff' * 8 + b'a', b'\x9b' + b'\xff' * 8, b'\xf8\x00', b'\xf8\xff', b'\xc0', b'\xdb' + b'\xff' * 8, b'\x80\x80\x80', b'\xc3\xa9', b'\xe2\x82',
+                b'\xf0\x9f\x98\x80', b'\xed\xa0\x80', b'\x7f', b'\x5f', b'\x9f', b'\xbf', b'\x1b', b'\xf9\x7e', b'\xfb' + b'\x00' * 7]
+        for i, x in enumerate(wf):
+            if len(x) <= 12 or (len(x) <= 300 and i % 4 == 0):
+                for y in DICT: out.append((x, y))
         # text whose content is not valid UTF-8 (decoding must not depend on it), followed by bytes that would continue a UTF-8 sequence, look
         # like a container head, a break, more payload ...
         bad = [b'\x62\x61\xc3', b'\x61\xc3', b'\x63\x61\xe2\x82', b'\x64\xf0\x9f\x98\x61', b'\x61\x80', b'\x78\x18' + b'a' * 23 + b'\xc3', b'\x7f\x61\xc3\xff',
